@@ -41,12 +41,14 @@ Section Stable.
   Variable U : units R.
   Variable K : oracles R.
   Variable minpos : R.
+  Variable rj : bool.     (* does the code reject an explicit period of 0? (the theorem holds either way) *)
+  Variable rg : bool.     (* is the Gaussian apodization FWHM exported rounded? *)
   Variable rz : bool.     (* is the idler waist position exported rounded? (the theorem holds either way) *)
 
   (* the class of setups for which the statement holds: angles not within 0.5e-4 degrees of the wrap-around of their
      range (there the exported 360.0000 / -180.0000 re-imports as 0 / +180), waist positions stored as non-positive
      offsets, and -- when poling is on -- exported signal wavelength longer than the exported pump wavelength (otherwise
-     compute_sign panics, finding F7) *)
+     compute_sign panics on a tree without the up-front wavelength check) and an exported period that did not round to 0 *)
   Definition beam_angles_ok (b : beam R) : Prop :=
     0 <= round4 (b_phi b / deg) < 360 /\ -180 < round4 (b_theta b / deg) <= 180.
   Definition reimportable (s : spdc R) : Prop :=
@@ -54,7 +56,7 @@ Section Stable.
     beam_angles_ok (s_signal s) /\ beam_angles_ok (s_idler s) /\ s_zs s <= 0 /\ s_zi s <= 0 /\
     match s_pp s with
     | PolOff => True
-    | PolOn period _ _ => 0 <= period /\ round4 (b_wavelength (s_pump s) / nano) < round4 (b_wavelength (s_signal s) / nano)
+    | PolOn period _ _ => 0 < round4 (period / micro) /\ round4 (b_wavelength (s_pump s) / nano) < round4 (b_wavelength (s_signal s) / nano)
     end.
 
   Lemma beam_reimport pol b wp cs : beam_angles_ok b ->
@@ -79,50 +81,52 @@ Section Stable.
   Qed.
 
   Theorem stable_spec s : reimportable s ->
-    exists s2, try_as_spdc_steps R_ops U K minpos (as_config_spec rz U s) = Ok (s2, []) /\
-               as_config_spec rz U s2 = as_config_spec rz U s.
+    exists s2, try_as_spdc_steps R_ops U K minpos rj (as_config_spec rz rg U s) = Ok (s2, []) /\
+               as_config_spec rz rg U s2 = as_config_spec rz rg U s.
   Proof.
     intros (Hmw & Hv & Hsig & Hidl & Hzs & Hzi & Hpp).
     pose proof deg_pos as Hdeg. pose proof nano_pos as Hnano. pose proof micro_pos as Hmicro. pose proof pico_pos as Hpico.
     unfold Config.try_as_spdc_steps, signal_step.
-    set (c1 := as_config_spec rz U s).
+    set (c1 := as_config_spec rz rg U s).
     destruct (beam_reimport (signal_polarization (cs_pm (cfg_cs0 R_ops c1))) (s_signal s) (round4 (s_zs s / micro)) (cfg_cs0 R_ops c1) Hsig)
       as (sig2 & Hsig2 & Hsp & Hsphi & Hsth & Hswl & Hsw).
     change (c_signal c1) with (beam_spec (s_signal s) (round4 (s_zs s / micro))).
     rewrite Hsig2. cbn [bind].
     (* poling *)
-    assert (Hpol : exists pp2, poling_step R_ops K minpos c1 sig2 = Ok (pp2, []) /\
-                   poling_as_config R_ops pp2 = c_pp c1).
-    { unfold poling_step, poling_of_cfg. subst c1. cbn [as_config_spec c_pp].
+    assert (Hpol : exists pp2, poling_step R_ops K minpos rj c1 sig2 = Ok (pp2, []) /\
+                   poling_spec rg pp2 = c_pp c1).
+    { unfold poling_step, poling_of_cfg. subst c1. cbn [as_config_spec c_pp]. unfold poling_spec at 1 3.
       destruct (s_pp s) as [| period sg a].
       - exists PolOff. split; reflexivity.
-      - destruct Hpp as [Hper Hlt]. unfold compute_sign, signal_le_pump.
+      - destruct Hpp as [Hr0 Hlt].
+        assert (Hnz : (rj && neqb R_ops (round4 (period / micro)) (n0 R_ops))%bool = false).
+        { rewrite n0_R. cbn [neqb R_ops]. destruct (Req_EM_T (round4 (period / micro)) 0); [exfalso; lra | apply Bool.andb_false_r]. }
+        rewrite Hnz. unfold compute_sign, signal_le_pump.
         cbn [cfg_pump as_config_spec c_pump pump_of_cfg set_angles beam_new b_wavelength pc_wavelength_nm nleb nmul R_ops].
         rewrite Hswl, u_nano_R.
         destruct (Rle_dec (round4 (b_wavelength (s_signal s) / nano) * nano) (round4 (b_wavelength (s_pump s) / nano) * nano)) as [Hle | Hnle];
           [exfalso; nra |].
         cbn [bind]. eexists. split; [reflexivity |].
-        assert (Hr : 0 <= round4 (period / micro)) by (apply round4_nonneg; apply Rmult_le_pos; [lra | left; apply Rinv_0_lt_compat; lra]).
+        assert (Hr : 0 <= round4 (period / micro)) by lra.
         unfold poling_new, sign_mul, sign_of. cbn [nltb nneg nabs nmul R_ops]. rewrite u_micro_R, n0_R.
         rewrite (Rabs_pos_eq _ Hr).
-        assert (Hap : forall a0, apod_as_config R_ops (apod_of_cfg R_ops (apod_spec a0)) = apod_spec a0).
-        { intros a0. destruct a0; cbn [apod_spec apod_of_cfg apod_as_config]; try reflexivity.
-          cbn [nmul ndiv R_ops]. rewrite u_micro_R. f_equal. field. lra. }
+        assert (Hap : forall a0, apod_spec rg (apod_of_cfg R_ops (apod_spec rg a0)) = apod_spec rg a0).
+        { intros a0. destruct a0; cbn [apod_spec apod_of_cfg]; try reflexivity.
+          cbn [nmul R_ops]. rewrite u_micro_R. rewrite mul_div_cancel by lra.
+          destruct rg; [rewrite round4_idempotent |]; reflexivity. }
         set (z := o_dkz0 K sig2 _ _).
         destruct (Rlt_dec z 0); cbn [nneg R_ops].
         + destruct (Rlt_dec 0 (- round4 (period / micro) * micro)); [exfalso; nra |].
-          cbn [poling_as_config]. rewrite sigfigs_R, u_micro_R, Hap. cbn [ndiv nneg R_ops].
+          cbn [poling_spec]. rewrite Hap.
           replace (- (- round4 (period / micro) * micro) / micro) with (round4 (period / micro)) by (field; lra).
           rewrite round4_idempotent. reflexivity.
         + destruct (Rlt_dec 0 (round4 (period / micro) * micro)).
-          * cbn [poling_as_config]. rewrite sigfigs_R, u_micro_R, Hap. cbn [ndiv R_ops].
+          * cbn [poling_spec]. rewrite Hap.
             rewrite mul_div_cancel by lra. rewrite round4_idempotent. reflexivity.
-          * cbn [poling_as_config]. rewrite sigfigs_R, u_micro_R, Hap. cbn [ndiv nneg R_ops].
-            assert (H0 : round4 (period / micro) = 0) by nra.
-            rewrite H0. replace (- (0 * micro) / micro) with 0 by (field; lra). rewrite round4_0. reflexivity. }
+          * exfalso; nra. }
     destruct Hpol as (pp2 & Hpp2 & Hppc). rewrite Hpp2. cbn [bind fst snd].
     unfold theta_step. subst c1. cbn [as_config_spec c_crystal cc_theta_deg is_auto bind].
-    set (c1 := as_config_spec rz U s) in *.
+    set (c1 := as_config_spec rz rg U s) in *.
     set (wi := if rz then round4 (s_zi s / micro) else s_zi s / micro).
     unfold idler_step. change (c_idler c1) with (Param (beam_spec (s_idler s) wi)). cbv iota.
     destruct (beam_reimport (idler_polarization (cs_pm (cfg_cs0 R_ops c1))) (s_idler s) wi (cfg_cs0 R_ops c1) Hidl)
@@ -161,8 +165,7 @@ Section Stable.
       assert (Hwi : (if rz then round4 wi else wi) = wi) by (unfold wi; destruct rz; [apply round4_idempotent | reflexivity]).
       rewrite Hwi. f_equal. apply beam_spec_reimport; assumption.
     - (* poling *)
-      rewrite <- Hppc. unfold poling_as_config. destruct pp2; [reflexivity |].
-      rewrite sigfigs_R, u_micro_R, apod_as_config_spec. reflexivity.
+      exact Hppc.
     - (* deff *)
       subst c1. cbn [as_config_spec c_deff nmul ndiv R_ops]. rewrite u_pico_R.
       replace (round4 (s_deff s / (pico / u_volt U)) * pico / u_volt U / (pico / u_volt U))
@@ -170,12 +173,12 @@ Section Stable.
       apply round4_idempotent.
   Qed.
 
-  Theorem stable s : rz = export_rounds_idler_waist_position -> reimportable s ->
-    exists s2, try_as_spdc_steps R_ops U K minpos (as_config R_ops U s) = Ok (s2, []) /\
+  Theorem stable s : rz = export_rounds_idler_waist_position -> rg = export_rounds_gaussian_fwhm -> reimportable s ->
+    exists s2, try_as_spdc_steps R_ops U K minpos rj (as_config R_ops U s) = Ok (s2, []) /\
                as_config R_ops U s2 = as_config R_ops U s.
   Proof.
-    intros Hrz Hre. destruct (stable_spec s Hre) as (s2 & H1 & H2). exists s2.
-    rewrite !as_config_matches_spec, <- Hrz. auto.
+    intros Hrz Hrg Hre. destruct (stable_spec s Hre) as (s2 & H1 & H2). exists s2.
+    rewrite !as_config_matches_spec, <- Hrz, <- Hrg. auto.
   Qed.
 End Stable.
 
